@@ -705,6 +705,9 @@ func (c *Ctx) VerifyFunction(key string) (*FuncReport, error) {
 		// vacuity guard: the precondition must be satisfiable
 		c.emit(st, nil, nil, "cover", "precondition", True, "precondition satisfiable", true)
 	}
+	if c.afterEntry != nil {
+		c.afterEntry(run, st)
+	}
 	// entry snapshot: everything materialised so far is the entry heap
 	outs := c.execFunc(st, fn, args, bindings, execOpts{top: true})
 	rep := &FuncReport{Key: key, Name: c.ShortName(key), Paths: run.paths + 1, Returns: len(outs)}
@@ -720,6 +723,7 @@ func (c *Ctx) VerifyFunction(key string) (*FuncReport, error) {
 	if len(outs) > 0 {
 		rep.Reachable = true
 	}
+	rep.Extern, rep.Modular, rep.Notes = run.externUsed, run.modularUsed, run.notes
 	c.cur = nil
 	return rep, nil
 }
@@ -732,6 +736,9 @@ type FuncReport struct {
 	Aborted     string
 	Reachable   bool
 	Obligations []*Obligation
+	Extern      map[string]bool
+	Modular     map[string]bool
+	Notes       []string
 }
 
 func (c *Ctx) checkPost(o outcome, fn *ssa.Function, ct *Contract, fr0 *Frame) {
@@ -751,6 +758,22 @@ func (c *Ctx) checkPost(o outcome, fn *ssa.Function, ct *Contract, fr0 *Frame) {
 			label = fmt.Sprintf("ensures.%d", i+1)
 		}
 		c.emit(st, nil, nil, "post", label, t, e.Text, false)
+		// a listed known finding excuses only the failing cases it names: outside its
+		// residual the postcondition must still hold
+		name := obName(c.ShortName(c.cur.key), "post", label, 0)
+		if resid, ok := c.FindingResidual[name]; ok && resid != "" {
+			re, err := ParseSpecExpr(resid)
+			if err != nil {
+				c.Errorf("CONTRACT-ERROR known finding %s: residual: %v", name, err)
+				continue
+			}
+			rt, err := c.evalBool(env, re)
+			if err != nil {
+				c.Errorf("CONTRACT-ERROR known finding %s: residual: %v", name, err)
+				continue
+			}
+			c.emit(st, nil, nil, "post", label+" outside-known-finding", Or(t, rt), e.Text+"  ||  [known finding] "+resid, false)
+		}
 	}
 	if ct.Opts["releases_all"] != "" || ct.Opts["nolocks"] != "" {
 		// no lock may be held at return
